@@ -651,6 +651,32 @@ def d6(cx: Cx, ob: Ob) -> None:
                     ob.violate(h.qualname, where(h, line), f"{fw}: the response declares `{show(declared)[:40] if declared else 'no type'}` while the body is serialised for `{show(ct)[:40]}`", detail=f"{fw}:declared-type")
         if not found:
             ob.undecide(f"{fw}: serialising handler not found")
+        # the query is judged by the SPARQL engine, not by its spelling: an answer other than the serialised
+        # result that is decided by looking at the raw query TEXT (its first word, a keyword in it) refuses
+        # valid queries written differently (PREFIX / BASE prologue, comments, lower case)
+        for h in cores:
+            hs = cx.summary(h, ob.id)
+            qparams = {("param", q_.name) for q_ in h.params if q_.name in ("sparql", "query", "q")}
+            # ... and whatever the handler hands to graph.query(<text>, processor=...)
+            for c_, _, _ in hs.calls("query"):
+                if c_[2] and dict(c_[3]).get("processor") is not None:
+                    qparams.add(c_[2][0])
+            for o_, ctx in hs.outcomes():
+                if o_ is None or any(op(x) == "call" and callee_name(x) == "serialize" for x in subterms(o_[1]) if isinstance(o_[1], tuple)):
+                    continue
+                for g in ctx.guards:
+                    if g.kind != "guard":
+                        continue
+                    textual = [x for x in subterms(g.a) if op(x) == "call" and op(x[1]) == "attr" and x[1][2] in ("startswith", "endswith", "find", "index", "count", "upper", "lower", "strip", "lstrip", "split", "partition") and any(y in qparams for y in subterms(x[1][1]))] + [x for x in subterms(g.a) if op(x) == "cmp" and x[1] in ("in", "not in") and x[3] in qparams and is_const(x[2])]
+                    if textual:
+                        ob.violate(
+                            h.qualname,
+                            where(h, g.line),
+                            f"{fw}: the handler answers `{show(o_[1])[:40]}` depending on the TEXT of the query (`{show(textual[0])[:50]}`): a valid SELECT query that starts with a PREFIX / BASE prologue or a comment is refused before the engine sees it",
+                            witness="'PREFIX owl: <http://www.w3.org/2002/07/owl#> SELECT ?o WHERE { ... }' is answered 400",
+                            detail=f"{fw}:query-text-filter",
+                        )
+                        break
 
 
 @obligation("C18-D7", "configured predicates: _prepare_predicates returns {owl:sameAs} only when no predicates are given, otherwise exactly the given ones; the graph stores that set and answers only for members of it", floor=3)
